@@ -438,7 +438,15 @@ class C07Gen(Gen):
         elif k == 'call':
             h = ch.choice(calls)
             form = ch.int(0, 2)
-            call = self.call_text(fn, h, 1)
+            seen_list = None
+            cands = [l for l in self.vars_of(fn, 'L') if all(fn.len_lb.get(l, 0) >= v for v in h[5].values())]
+            if h[4] and cands:
+                # a helper that writes into its list argument: hand it a list that is read afterwards
+                seen_list = ch.choice(cands)
+                call = f'{h[0]}({", ".join(seen_list if pt == "L" else self.expr_R(fn, 0) for _, pt in h[1])})'
+                self.features.add('helper-call')
+            else:
+                call = self.call_text(fn, h, 1)
             if form == 0 or depth <= 0:
                 out.append(f'{ind}{t} = {call}')
             elif form == 1:
@@ -451,6 +459,10 @@ class C07Gen(Gen):
             self.features.add('dead-call')
             if h[4]:
                 self.features.add('dead-call-mutating')
+            if seen_list is not None:
+                u = fn.fresh('v')
+                out.append(f'{ind}{u} = sum({seen_list})')
+                fn.env[u] = 'R'
         self.features.add('dead-store')
         return True
 
